@@ -663,8 +663,10 @@ Definition make_params (rq : irequest) (id0 : bytes) (rnd : list bytes) : iparam
      alg2 R (rq_Length rq) O (rq_P rq) id0 em (rq_user rq))
   else
     let fek := rq_fek rq in
+    (* Algorithm 9 has no counterpart of Algorithm 3 (a): without an owner password the owner password is the
+       empty string *)
     let '(Uv, UE) := alg8 R fek (rq_user rq) (draw rnd 0) in
-    let '(Ov, OE) := alg9 R fek (match rq_owner rq with Some o => o | None => rq_user rq end) Uv (draw rnd 1) in
+    let '(Ov, OE) := alg9 R fek (match rq_owner rq with Some o => o | None => [] end) Uv (draw rnd 1) in
     ({| ip_V := rq_V rq; ip_R := R; ip_Length := rq_Length rq; ip_O := Ov; ip_U := Uv; ip_OE := OE; ip_UE := UE;
         ip_Perms := alg10 (rq_P rq) (rq_EncryptMetadata rq) fek (draw rnd 2); ip_P := rq_P rq;
         ip_EncryptMetadata := rq_EncryptMetadata rq; ip_CF := rq_CF rq; ip_StmF := rq_StmF rq;
